@@ -22,6 +22,7 @@ import Pycdlib.Model.Tools
 import Pycdlib.Model.Atomic
 import Pycdlib.Model.Cache
 import Pycdlib.Model.Extents
+import Pycdlib.Model.UdfNames
 namespace Pycdlib
 
 def parseCps (s : String) : Option (List Nat) :=
@@ -152,6 +153,15 @@ def dispatchPure (toks : List String) : Option String :=
   | ["bit", pvd, fsec, olen, hx] => do
     let b ← ofHex hx
     pure (toHex ((Boot.bootInfoTable (← pvd.toNat?) (← fsec.toNat?) (← olen.toNat?) (b.map (·.toNat))).map fun n => UInt8.ofNat n))
+  | ["udfident", stored, query] => do
+    -- code points joined by '.'; answer: encoding, units of the identifier recorded for `stored`, and whether a lookup of
+    -- `query` finds it
+    let cps : String → Option (List Nat) := fun t => if t = "-" then some [] else (t.splitOn ".").mapM (·.toNat?)
+    let n ← cps stored
+    let q ← cps query
+    let i := UdfNames.identOf n
+    let e := match i.enc with | .latin1 => "latin1" | .utf16 => "utf16"
+    pure s!"{e} {".".intercalate (i.units.map toString)} {if UdfNames.matches_ i q then 1 else 0}"
   | "addchild" :: toks => do
     -- identifiers (ranks) of the records added one after the other with allow_duplicate; the tag is the position
     let ids ← toks.mapM (·.toNat?)
